@@ -425,7 +425,10 @@ def features_of(edit, dl_new):
 def hist_db(ctx, spec_a, spec_b, schedule, witness):
     """the database reached by the call history `schedule` (compare_lib.load_history) from spec_a; None when it cannot be had
     (refresh() raising on the edited database is a failure of the tools to report anything: reported)"""
-    dbh, prob = L.load_history(spec_a, spec_b, schedule)
+    if schedule == "M":
+        dbh, prob = L.load_mutated(spec_a, witness.get("layer"), witness.get("edit") or {})
+    else:
+        dbh, prob = L.load_history(spec_a, spec_b, schedule)
     if dbh is None:
         ctx.count(f"history-{prob}")
         if prob.startswith("foreign:"):
@@ -1028,6 +1031,9 @@ def explore_spec(ctx, pend, rng, spec, max_attr, db_every, structural=True, ever
             sched = schedule_of(k) if schedule_of else None
             if sched:
                 history_case(ctx, pend, spec, s2, lname, edit, children, db, db_new, sched)
+            if (sched or only_param) and edit["kind"] == "attr" and edit["attr"] == "bitlen" and edit.get("pkind") in ("const", "nrc", "reserved"):
+                # schedule "M": the bit length is assigned on the objects of the loaded database (no re-parsing), then refresh()
+                history_case(ctx, pend, spec, s2, lname, edit, children, db, db_new, "M")
         if structural:
             for edit, s2 in structural_edits(rng, spec, lname):
                 db_new = run_case(ctx, pend, "structural", spec, s2, lname, edit, db, oracle=False)
